@@ -12,10 +12,10 @@ def consts(events=(1,), nodes=1, filters=0, enq=3, disp=0, depth=5, ordered=Fals
 
 
 def world(name, obj=1, threading=0, key=0, arg=0, mode=0, map_=0, filt=0, order=0, callback=0, fill="0xA5", fraction=1.0,
-          compiler="g++", std="c++11", opt="-O1", only_tags=None, sanitize=True, cancont=0, mixins=0, moveonly=0):
+          compiler="g++", std="c++11", opt="-O1", only_tags=None, sanitize=True, cancont=0, mixins=0, moveonly=0, util=0):
     w = {"name": name, "source": "dq_interp.cpp",
          "defines": ["W_OBJ=%d" % obj, "W_THREADING=%d" % threading, "W_KEY=%d" % key, "W_ARG=%d" % arg, "W_MODE=%d" % mode, "W_MAP=%d" % map_,
-                     "W_FILTER=%d" % filt, "W_ORDER=%d" % order, "W_CALLBACK=%d" % callback, "W_FILL=%s" % fill] + (["W_CANCONT=1"] if cancont else []) + (["W_MIXINS=%d" % mixins] if mixins else []) + (["W_MOVEONLY=1"] if moveonly else []),
+                     "W_FILTER=%d" % filt, "W_ORDER=%d" % order, "W_CALLBACK=%d" % callback, "W_FILL=%s" % fill] + (["W_CANCONT=1"] if cancont else []) + (["W_MIXINS=%d" % mixins] if mixins else []) + (["W_MOVEONLY=1"] if moveonly else []) + (["W_UTIL=1"] if util else []),
          "fraction": fraction, "compiler": compiler, "std": std, "opt": opt, "sanitize": sanitize,
          "trace_env": {"ORDER": str(order), "CANCONT": str(cancont), "VETO": {0: "0", 1: "0", 2: "1", 3: "2", 4: "1"}[mixins]}}
     if only_tags:
